@@ -128,6 +128,18 @@ func (eng *Engine) VerifyFunc(pkg *packages.Package, decl *ast.FuncDecl, c *Cont
 		}
 		if r := recover(); r != nil {
 			if ve, ok := r.(vcError); ok {
+				if c != nil && !lockSweepOnly && fc.genStarted {
+					// the function still exists and has a contract, but its current body (or a contract clause that names
+					// something the body no longer has) cannot be turned into obligations: everything the contract
+					// promises is undecided, which is reported as a failed obligation (VIOLATION ... no-failing-input-found),
+					// not as an engine error
+					ob := &Obligation{Name: fc.name + "/generation#contract", Kind: "generation", Func: fc.name, fc: fc, Expect: "unsat", Label: "contract",
+						Desc:        "the obligations of " + fc.name + " (its whole contract) can no longer be generated from the current code: " + ve.msg,
+						Ungenerated: ve.msg, Pos: fc.eng.fset.Position(decl.Pos()).String()}
+					res.Obls = append(res.Obls, ob)
+					res.Dropped = append(res.Dropped, "NOT GENERATED: "+fc.name+": "+ve.msg)
+					return
+				}
 				res.Err = ve.msg
 				return
 			}
@@ -142,6 +154,7 @@ func (eng *Engine) VerifyFunc(pkg *packages.Package, decl *ast.FuncDecl, c *Cont
 	sig := fn.Type().(*types.Signature)
 	fc.fnSig = sig
 	fc.numberLoops(decl)
+	fc.genStarted = true
 	if c != nil {
 		for ord := range c.Loops {
 			found := false
